@@ -29,7 +29,7 @@ RULE = (
 def plan(tier):
     if tier == "quick":
         return "abcd", gen.LENGTH_PATTERNS[4][:2]
-    return "abcde", gen.LENGTH_PATTERNS[5][:2]
+    return "abcde", gen.LENGTH_PATTERNS[5]
 
 
 def one(rec, hub, tier, seed, letters, pat, pi, what, ai, assign):
@@ -63,7 +63,7 @@ def run(rec, hub, tier, seed, shard, nshards, budget):
         work += [("read", pi, ai) for ai in range(len(reads))]
         work += [("write", pi, ai) for ai in range(len(writes))]
         work += [("misc", pi, ai) for ai in range(12)]
-        work += [("history", pi, ai) for ai in range(20 if tier == "quick" else 200)]
+        work += [("history", pi, ai) for ai in range(20 if tier == "quick" else 1500)]
     for w, (what, pi, ai) in enumerate(work):
         if w % nshards != shard:
             continue
